@@ -44,7 +44,7 @@ var Matrix = []Config{
 }
 
 // QuickNames are the configurations of the quick tier.
-var QuickNames = []string{"amd64-default", "amd64-noasm", "amd64-force32"}
+var QuickNames = []string{"amd64-default", "amd64-noasm", "amd64-force32", "amd64-noasm-appengine"}
 
 // ByName returns the named configuration.
 func ByName(n string) (Config, bool) {
